@@ -154,9 +154,20 @@ func (h *Hist) govShock() string {
 			return ""
 		}
 	}
+	applied := govApply(w, msg)
+	if !applied {
+		return ""
+	}
+	curPre = append(curPre, J{"kind": "gov", "msg": c17MsgJSON(w, msg)})
+	return strings.TrimPrefix(u, "/elys.") + l.path + "=" + val
+}
+
+// govApply runs a governance message the way a passed proposal is run: the module's handler on a cache context that is
+// written only on success; a panic is recovered.
+func govApply(w *World, msg sdk.Msg) bool {
 	handler := w.App.MsgServiceRouter().Handler(msg)
 	if handler == nil {
-		return ""
+		return false
 	}
 	applied := false
 	w.Seed(func(ctx sdk.Context) {
@@ -169,8 +180,5 @@ func (h *Hist) govShock() string {
 			}
 		}()
 	})
-	if !applied {
-		return ""
-	}
-	return strings.TrimPrefix(u, "/elys.") + l.path + "=" + val
+	return applied
 }
